@@ -249,6 +249,15 @@ class Evaluator:
                 r = min(a.v, b.v) if tail == "min" else max(a.v, b.v)
                 return KB.const(r, max(a.w, b.w))
             raise CannotEval("min/max of partially known values")
+        if tail in ("saturating_add", "saturating_sub") and len(args) == 2:
+            import re
+            m_ = re.search(r"\b(u8|u16|u32|u64|usize)\b", name)
+            a, b = self.ev(args[0]), self.ev(args[1])
+            if m_ and a.full() and b.full():
+                w_ = {"u8": 8, "u16": 16, "u32": 32, "u64": 64, "usize": 64}[m_.group(1)]
+                r = min(a.v + b.v, (1 << w_) - 1) if tail == "saturating_add" else max(a.v - b.v, 0)
+                return KB.const(r, w_)
+            raise CannotEval("saturating arithmetic on partially known values / unknown type")
         if tail == "_pext_u64":
             a = self.ev(args[0])
             mk = self.ev(args[1])
